@@ -550,9 +550,90 @@ var ruleA11 = &Rule{
 					obls = append(obls, Obl{Key: fmt.Sprintf("%s key depends on %s", name, nm.Name), Pos: c.pos(mark.Pos()), Status: s2, Msg: m2})
 				}
 			}
+			// the key derived by a method of a key object (`key := seriesDayKey{dayTS: …, fp: fp}; key.hash()`): every value
+			// parameter of the marking function must feed a field of the object that in turn feeds one of the writes
+			if fi != markFi && fi.Decl.Recv != nil && len(fi.Decl.Recv.List) == 1 {
+				var recvT *types.Struct
+				if len(fi.Decl.Recv.List[0].Names) == 1 {
+					if o := info.Defs[fi.Decl.Recv.List[0].Names[0]]; o != nil {
+						t := o.Type()
+						if pt, ok := t.Underlying().(*types.Pointer); ok {
+							t = pt.Elem()
+						}
+						recvT, _ = t.Underlying().(*types.Struct)
+					}
+				}
+				// field → the expressions the marking function initialises it with
+				fieldInit := map[string][]ast.Expr{}
+				ast.Inspect(markFi.Decl.Body, func(n ast.Node) bool {
+					switch x := n.(type) {
+					case *ast.CompositeLit:
+						if tv, ok := info.Types[x]; ok && recvT != nil {
+							if st, ok := tv.Type.Underlying().(*types.Struct); ok && types.Identical(st, recvT) {
+								for i, el := range x.Elts {
+									if kv, ok := el.(*ast.KeyValueExpr); ok {
+										if id, ok := kv.Key.(*ast.Ident); ok {
+											fieldInit[id.Name] = append(fieldInit[id.Name], kv.Value)
+										}
+									} else if i < st.NumFields() {
+										fieldInit[st.Field(i).Name()] = append(fieldInit[st.Field(i).Name()], el)
+									}
+								}
+							}
+						}
+					case *ast.AssignStmt:
+						for i, lh := range x.Lhs {
+							if se, ok := lh.(*ast.SelectorExpr); ok && i < len(x.Rhs) {
+								if sel, ok := info.Selections[se]; ok && sel.Kind() == types.FieldVal && recvT != nil {
+									if st, ok := derefT(sel.Recv()).Underlying().(*types.Struct); ok && types.Identical(st, recvT) {
+										fieldInit[se.Sel.Name] = append(fieldInit[se.Sel.Name], x.Rhs[i])
+									}
+								}
+							}
+						}
+					}
+					return true
+				})
+				for _, mf := range markFi.Decl.Type.Params.List {
+					for _, mn := range mf.Names {
+						if obj := info.Defs[mn]; obj == nil || strings.Contains(obj.Type().String(), "numbercache") {
+							continue
+						}
+						feeds := false
+						for fname, inits := range fieldInit {
+							fromParam := false
+							for _, e := range inits {
+								if c.mentionsText(markFi, e, mn.Name, 0) {
+									fromParam = true
+								}
+							}
+							if !fromParam {
+								continue
+							}
+							for _, w := range writes {
+								if c.mentionsText(fi, w.src, fname, 0) {
+									feeds = true
+								}
+							}
+						}
+						s2, m2 := OK, ""
+						if !feeds {
+							s2, m2 = Violation, fmt.Sprintf("parameter %s does not reach the cache key: series are announced once per cache lifetime regardless of %s", mn.Name, mn.Name)
+						}
+						obls = append(obls, Obl{Key: fmt.Sprintf("%s key depends on %s", name, mn.Name), Pos: c.pos(mark.Pos()), Status: s2, Msg: m2})
+					}
+				}
+			}
 		}
 		return obls
 	},
+}
+
+func derefT(t types.Type) types.Type {
+	if p, ok := t.Underlying().(*types.Pointer); ok {
+		return p.Elem()
+	}
+	return t
 }
 
 func init() { register(ruleA11) }
